@@ -322,26 +322,30 @@ def sym(lo, hi):
     return st.floats(min_value=lo, max_value=hi, allow_nan=False, width=64)
 
 
+def flist(elem, n):
+    return st.lists(elem, min_size=n, max_size=n)
+
+
 @st.composite
-def grid_strategy(draw, nzmin, nzmax, holes):
-    nx, ny = draw(st.integers(1, 3)), draw(st.integers(1, 3))
+def grid_strategy(draw, nxy, nzmin, nzmax, holes):
+    nx, ny = draw(st.integers(1, nxy)), draw(st.integers(1, nxy))
     nz = draw(st.integers(nzmin, nzmax))
     n = nx * ny * nz
     g = {"nx": nx, "ny": ny, "nz": nz,
-         "dxv": [draw(unit01) ** 2 for _ in range(nx)],
-         "dyv": [draw(unit01) ** 2 for _ in range(ny)],
-         "dzv": [draw(unit01) ** 2 for _ in range(nz)],
+         "dxv": [t * t for t in draw(flist(unit01, nx))],
+         "dyv": [t * t for t in draw(flist(unit01, ny))],
+         "dzv": [t * t for t in draw(flist(unit01, nz))],
          "tops": draw(st.sampled_from([0.0, 1000.0, 2500.0]) | sym(0.0, 3000.0))}
     iso = draw(st.integers(0, 9)) == 0
     for kname in ("permx", "permy", "permz"):
-        g[kname] = [draw(sym(-2.0, 4.0)) for _ in range(n)]
+        g[kname] = draw(flist(sym(-2.0, 4.0), n))
     if iso:
         g["permy"] = list(g["permx"])
-    g["poro"] = [0.05 + 0.3 * draw(unit01) for _ in range(n)]
-    g["ntg"] = None if draw(st.integers(0, 4)) == 0 else [draw(unit01) for _ in range(n)]
+    g["poro"] = [0.05 + 0.3 * draw(unit01)] * n
+    g["ntg"] = None if draw(st.integers(0, 4)) == 0 else draw(flist(unit01, n))
     g["actnum"] = None
     if holes and n >= 6 and draw(st.booleans()):
-        a = [0 if draw(st.integers(0, 5)) == 0 else 1 for _ in range(n)]
+        a = draw(flist(st.sampled_from([1, 1, 1, 1, 1, 0]), n))
         if sum(a) >= 3:
             g["actnum"] = a
     return g
@@ -364,7 +368,7 @@ def record_strategy(draw, g, well):
 
 @st.composite
 def case_a(draw):
-    g = draw(grid_strategy(1, 3, False))
+    g = draw(grid_strategy(2, 1, 3, False))
     nrec = draw(st.integers(1, 6))
     recs = [draw(record_strategy(g, "W%d" % (r + 1))) for r in range(nrec)]
     return {"part": "A", "units": draw(st.sampled_from(UNITS)), "dhi": draw(sym(0.05, 0.6)), "grid": g,
@@ -387,7 +391,7 @@ def _target(draw, c, n, with_range):
 
 @st.composite
 def case_b(draw):
-    g = draw(grid_strategy(2, 5, True))
+    g = draw(grid_strategy(3, 2, 5, True))
     nx, ny, nz = g["nx"], g["ny"], g["nz"]
     nwell = draw(st.integers(1, 2))
     wells = []
@@ -645,7 +649,7 @@ COMBOS16 = [(cf, kh, dia, r0) for cf in (0, 1) for kh in (0, 1) for dia in (0, 1
 class C06(Check):
     ID = "C06"
     PROBE_GROUP = "conn"
-    RULE = ("Part A: tensor grids (1-3 x 1-3 x 1-3 cells, DXV/DYV/DZV in [max(1 m, 6 rw), 500 m], PERMX/Y/Z log-uniform "
+    RULE = ("Part A: tensor grids (1-2 x 1-2 x 1-3 cells; part B up to 3 x 3 x 5 with ACTNUM holes; DXV/DYV/DZV in [max(1 m, 6 rw), 500 m], PERMX/Y/Z log-uniform "
             "over 6 decades and independent per cell, NTG per cell or absent, TOPS 0-3000 m) in one of the four unit "
             "systems; 1-6 wells with one COMPDAT record each: direction X/Y/Z, diameter defaulted or 0.05-0.6 m, skin "
             "defaulted or drawn given ln(r0/rw) in [-3, 20], CF in {defaulted, 0, computed value, free}, Kh in "
@@ -669,8 +673,8 @@ class C06(Check):
         "(top-down); for other TRACK wells only 'unchanged when no new cell was connected'",
         "re, connection length, D-factor, CTF kind are not asserted",
     ]
-    EXAMPLES = {"quick": 330, "thorough": 7000}
-    MIN_EVALS = {"quick": 3000, "thorough": 50000}
+    EXAMPLES = {"quick": 330, "thorough": 5000}
+    MIN_EVALS = {"quick": 1500, "thorough": 12000}
     TIME_CAP = {"quick": 170, "thorough": 1100}
     EXHAUSTIVE = False
     LEVEL_TEXT = ("Generated-input search against two independent Python models: the Peaceman relation/defaults "
